@@ -35,7 +35,17 @@ def new_value(rng, key, decl=None):
         return rng.choice([0, 1, 2, 3, 7, 12, -4, 250])
     if kind == 'num':
         return rng.choice([0, 3, -2, 1.5, 2.0, 'positive', 'neg'])
-    return rng.choice([0.0, 0.5, 1.25, -3.0, 7.75, 100.125, 2.0, 12.0])
+    # dyadic values (the same number in float32 and float64) and decimal ones (1.1 is a different number as float32: the
+    # table must hold the number that was supplied, not its shortest decimal rendering)
+    return rng.choice([0.0, 0.5, 1.25, -3.0, 7.75, 100.125, 2.0, 12.0, 1.1, -0.3, 3.14159, 27.337])
+
+
+def as_carried(carrier, block):
+    """the numbers a float32 carrier actually supplies (the abstract values of the operation)"""
+    if carrier != 'f32':
+        return block
+    f = lambda v: float(np.float32(v)) if isinstance(v, float) else v
+    return [[f(v) for v in r] if isinstance(r, list) else f(r) for r in block]
 
 
 def carrier_ok(carrier, block):
@@ -153,6 +163,7 @@ def gen_history(rng, n, nops):
                 if rng.random() < 0.3:
                     block[0], block[j] = block[j], block[0]
             carrier = rng.choice([c for c in (['list', 'tuple', 'npscalar'] if kind == 'ragged' else CARRIERS) if carrier_ok(c, block)])
+            block = as_carried(carrier, block)
             op = {'name': 'update', 'columns': colstr, 'values': [jrow(r) for r in block], 'tn': 'nope' if kind == 'badtable' else rng.choice(['ATOM', 'atom']),
                   'kw': jkw(kws), 'carrier': carrier, 'kind': kind}
             if kind == 'ok' and block:
@@ -172,6 +183,7 @@ def gen_history(rng, n, nops):
                 nrow = max(nrow, 1)
             block = [[new_value(rng, 'x') for _ in range(ncol)] for _ in range(nrow)]
             carrier = rng.choice([c for c in ['list', 'tuple', 'f64', 'f32', 'npscalar'] if carrier_ok(c, block)])
+            block = as_carried(carrier, block)
             op = {'name': 'update_xyz', 'values': [jrow(r) for r in block], 'tn': rng.choice(['ATOM', 'atom']), 'kw': jkw(kws), 'carrier': carrier, 'kind': kind}
             if kind == 'ok':
                 for r, i in zip(block, sel):
@@ -194,6 +206,7 @@ def gen_history(rng, n, nops):
                 kind = rng.choice(['badcol', 'badtable'])
             carrier = rng.choice([x for x in CARRIERS if carrier_ok(x, vals)])
             icarrier = rng.choice(['list', 'i64', 'npscalar'])
+            vals = as_carried(carrier, vals)
             op = {'name': 'update_column', 'colname': 'foo' if kind == 'badcol' else c, 'values': jrow(vals), 'tn': 'nope' if kind == 'badtable' else 'ATOM',
                   'carrier': carrier, 'icarrier': icarrier, 'kind': kind}
             if idx is not None:
